@@ -67,6 +67,14 @@ pub fn venue_view(tag: u8, reserve: &[u8], obligation: &[u8]) -> Option<VenueVie
             let c = venue::solend_obligation_amount(obligation)?;
             Some(VenueView { rate: solend_rate(&r), collateral: c, decimals: r.liquidity_mint_decimals as u64, empty: { r.collateral_mint_total_supply } == 0, slot: r.last_update_slot })
         }
+        4 => {
+            let m = venue::read_spot_market(reserve)?;
+            let u = venue::read_drift_user(obligation)?;
+            let cum = u128::from_le_bytes(m.cumulative_deposit_interest);
+            let p = venue::drift_precision_increase(m.decimals)?;
+            // native tokens per scaled-balance unit
+            Some(VenueView { rate: ru(cum) / ru(p), collateral: u.spot_positions[venue::drift_position_index(m.market_index)].scaled_balance, decimals: m.decimals as u64, empty: u128::from_le_bytes(m.deposit_balance) == 0, slot: m.last_interest_ts })
+        }
         _ => None,
     }
 }
@@ -74,7 +82,7 @@ pub fn reserve_slot(setup: OracleSetup, data: &[u8]) -> Option<u64> {
     match setup {
         OracleSetup::KaminoPythPush => venue::read_reserve(data).map(|r| r.slot),
         OracleSetup::SolendPythPull => venue::read_solend_reserve(data).map(|r| r.last_update_slot),
-        _ => None,
+        _ => None, // Drift staleness is by the second, judged by the reference price itself
     }
 }
 
@@ -121,12 +129,12 @@ impl Mon {
 
     pub fn venue_on_ix(&mut self, wd: &World, v: &IxView, info: &IxInfo) {
         let _ = wd;
-        if matches!(info.kind, Kind::Borrow | Kind::Withdraw | Kind::KaminoWithdraw | Kind::SolendWithdraw) {
+        if matches!(info.kind, Kind::Borrow | Kind::Withdraw | Kind::KaminoWithdraw | Kind::SolendWithdraw | Kind::DriftWithdraw) {
             self.c20_stale_accept(v, info);
         }
         let dep = match info.kind {
-            Kind::KaminoDeposit | Kind::SolendDeposit => true,
-            Kind::KaminoWithdraw | Kind::SolendWithdraw => false,
+            Kind::KaminoDeposit | Kind::SolendDeposit | Kind::DriftDeposit => true,
+            Kind::KaminoWithdraw | Kind::SolendWithdraw | Kind::DriftWithdraw => false,
             _ => return,
         };
         let name = info.kind.name();
@@ -149,7 +157,8 @@ impl Mon {
             (Some(a), Some(b)) => (a, b),
             _ => return,
         };
-        let user_ta = v.ev.pre.get(4).map(|s| s.key);
+        // the user's token account sits at a different position in the Drift account structs
+        let user_ta = v.ev.pre.get(if tag == 4 { 7 } else { 4 }).map(|s| s.key);
         let (tp, tq) = match user_ta.and_then(|k| Some((token_amount(rd(&k, false)?)?, token_amount(rd(&k, true)?)?))) {
             Some(x) => x,
             None => return,
